@@ -1,21 +1,27 @@
 #!/bin/bash
-# Applies each behaviour-preserving variant under /verif/variants to a scratch
-# worktree, checks that it builds and the suite passes, and runs every check:
-# any new violation is a false alarm of the machinery.
-wt=/tmp/wt-variants
-git -C /repo worktree remove --force $wt 2>/dev/null
-git -C /repo worktree add -q --detach $wt HEAD
+# Applies each behaviour-preserving variant under /verif/variants (optionally only
+# those whose name starts with $1) to its own scratch worktree, checks that it
+# builds (SUITE=1: and that the whole suite passes), and runs every check:
+# any new violation is a false alarm of the machinery.  Runs ${JOBS:-6} at a time.
 export GOFLAGS=-mod=mod GOPROXY=off GOSUMDB=off GOTOOLCHAIN=local GOWORK=off
+/verif/build.sh || exit 2
 props=$(python3 -c "import json;print(' '.join(c['property_id'] for c in json.load(open('/verif/MANIFEST.json'))['checks']))")
-for v in /verif/variants/${1:-v}*.diff; do
-  git -C $wt checkout -q -- . ; git -C $wt clean -fdq
-  git -C $wt apply $v || { echo "$(basename $v): DOES NOT APPLY"; continue; }
-  ( cd $wt && go build ./... && go test -vet=off -count=1 ./... >/dev/null 2>&1 ) || { echo "$(basename $v): BUILD/SUITE FAILS (not behaviour preserving?)"; continue; }
-  bad=""
-  for p in $props; do
-    out=$(UGO_REPO=$wt UGOLINT_EVDIR=/tmp/ev-variants /verif/bin/ugolint $p quick 2>&1); rc=$?
-    if [ $rc -ne 0 ]; then bad="$bad $p"; echo "$out" | grep -E "\] (violation|undecided):" | cut -c1-240 | head -4; fi
+one() {
+  v=$1; name=$(basename $v .diff); wt=/tmp/wt-var-$name; ev=/tmp/ev-var-$name
+  git -C /repo worktree remove --force $wt 2>/dev/null; rm -rf $wt
+  git -C /repo worktree add -q --detach $wt HEAD || { echo "$name: WORKTREE FAILED"; return; }
+  if ! git -C $wt apply $v 2>/dev/null; then echo "$name: DOES NOT APPLY"; git -C /repo worktree remove --force $wt; return; fi
+  if ! ( cd $wt && go build ./... ) >/dev/null 2>&1; then echo "$name: BUILD FAILS"; git -C /repo worktree remove --force $wt; return; fi
+  if [ -n "$SUITE" ] && ! ( cd $wt && go test -vet=off -count=1 ./... ) >/dev/null 2>&1; then echo "$name: SUITE FAILS (not behaviour preserving?)"; git -C /repo worktree remove --force $wt; return; fi
+  bad=""; msgs=""
+  for p in $PROPS; do
+    out=$(UGO_REPO=$wt UGOLINT_EVDIR=$ev /verif/bin/ugolint $p quick 2>&1); rc=$?
+    if [ $rc -ne 0 ]; then bad="$bad $p"; msgs="$msgs$(echo "$out" | grep -E "\] (violation|undecided):" | cut -c1-300 | head -4)
+"; fi
   done
-  echo "$(basename $v): ${bad:-silent}"
-done
-git -C /repo worktree remove --force $wt; rm -rf /tmp/ev-variants
+  [ -n "$msgs" ] && printf "%s" "$msgs"
+  echo "$name: ${bad:-silent}"
+  git -C /repo worktree remove --force $wt; rm -rf $ev
+}
+export -f one; export PROPS="$props"
+ls /verif/variants/${1:-v}*.diff | xargs -P ${JOBS:-6} -I{} bash -c 'one {}'
